@@ -37,7 +37,12 @@ def record(scn):
     n = scn['n']
     q0 = qm.qnorm(np.array(scn['q0'], dtype=float))
     w = np.array(scn['w'], dtype=float)
-    if 'world' in scn:
+    if scn.get('ortho'):
+        # exactly orthogonal neighbours: the record walks through the four basis quaternions (half-turns)
+        basis = np.eye(4)
+        order = scn['ortho']
+        Q = np.array([basis[order[k % len(order)]] for k in range(n)])
+    elif 'world' in scn:
         Q, _, _ = W.truth(scn['world'])
     else:
         Q = np.array([qm.qmul(q0, qm.qexp(w * (k * scn['dt']))) for k in range(n)])
@@ -120,6 +125,16 @@ class Check:
                                     'flip_pattern': fl, 'rate': rate})
                         if mask and fl in ('none', 'tail') and n <= 8:
                             out.append(dict(out[-1], torn=n * 100 + len(out) % 97))       # same mask, some lost rows only torn
+        # records whose consecutive rows are *exactly* orthogonal (dot product 0.0): walks through basis quaternions
+        for n in range(3, min(nmax, 7) + 1):
+            interior = list(range(1, n - 1))
+            masks = [list(c) for r in range(1, len(interior) + 1) for c in itertools.combinations(interior, r)]
+            for order in ([0, 3], [0, 1, 2, 3], [3, 2], [1, 0, 2]):
+                for fl in ('none', 'alternate'):
+                    flips = self._flip_list(fl, n, rnd)
+                    for mask in masks:
+                        out.append({'n': n, 'q0': [1.0, 0.0, 0.0, 0.0], 'w': [0.0, 0.0, 0.0], 'dt': 1.0, 'loss': mask, 'flips': flips,
+                                    'flip_pattern': fl, 'rate': 3.15, 'ortho': order})
         return out
 
     def gen(self, seed, tier):
@@ -210,6 +225,20 @@ class Check:
                         stats['lerp_branch'] += 1
                     else:
                         stats['slerp_branch'] += 1
+                    # the same endpoints and weights through the package's other SLERP (ahrs.common.orientation.slerp)
+                    try:
+                        import ahrs.common.orientation as ORI
+                        alt = np.asarray(ORI.slerp(pa.copy(), pb.copy(), np.linspace(0, 1, L + 2)[1:-1]), dtype=float)
+                        for j in range(1, L + 1):
+                            ref = qm.slerp_ref(pa, pb, j / (L + 1.0))
+                            if not np.all(np.isfinite(alt[j - 1])) or abs(float(alt[j - 1] @ alt[j - 1]) - 1.0) > 1e-9 or not qm.rot_angle(alt[j - 1], ref) <= FILL_TOL:
+                                viol.append(v('orientation.slerp', 'off-geodesic', gap[j - 1], f'orientation.slerp at weight {j}/{L + 1} between {pa} and {pb} (dot {float(pa @ pb):.6g}) gives {alt[j - 1]}, the shortest-arc interpolant is {ref}'))
+                                break
+                        stats['alt_slerp_rows_checked'] = stats.get('alt_slerp_rows_checked', 0) + L
+                    except Exception as e:      # noqa: BLE001
+                        viol.append(v('orientation.slerp', f'crash:{type(e).__name__}', gap[0], f'{type(e).__name__}: {e}'))
+                    if viol:
+                        break
                     for j, i in enumerate(gap, start=1):
                         row = R[i]
                         stats['filled_rows_checked'] += 1
@@ -249,7 +278,7 @@ class Check:
         except Exception as e:          # noqa: BLE001
             viol.append(v('remove_jumps', f'crash:{type(e).__name__}', 0, f'{type(e).__name__}: {e}'))
         nontrivial = bool(lost) or bool(scn['flips'])
-        sig = f"{n}|{scn['rate']}|{scn.get('flip_pattern')}|{lost}|{scn.get('torn', 0)}|{scn['flips'] if scn.get('flip_pattern') == 'random' else ''}|{scn['q0'][0]:.6f}" if nontrivial else None
+        sig = f"{n}|{scn['rate']}|{scn.get('ortho')}|{scn.get('flip_pattern')}|{lost}|{scn.get('torn', 0)}|{scn['flips'] if scn.get('flip_pattern') == 'random' else ''}|{scn['q0'][0]:.6f}" if nontrivial else None
         log.add('viol', [(x['component'], x['symptom'], x['step']) for x in viol])
         return {'violations': viol, 'stats': stats, 'digest': log.digest(), 'sig': sig, 'sim_seconds': float(n) * scn['dt']}
 
